@@ -90,8 +90,9 @@ public:
   typedef std::set<CPPFile> ParsedFiles;
   ParsedFiles _parsed_files;
 
-  // How many times each file has been opened so far, to catch a file that
-  // keeps including itself.
+  // How many times each file has been included from the very end of another
+  // file (after that file was closed), to catch a file that ends by including
+  // itself.
   std::map<CPPFile, int> _include_counts;
 
   typedef std::set<std::string> Includes;
